@@ -120,9 +120,9 @@ const ALNUM_RICH: &[&str] = &[
     " ", "\n", "\r\n", ".", "1", "[mode]", "x: y", "?", "+", "/",
 ];
 
-fn fence_family() -> Vec<String> {
-    let mut v = Vec::new();
-    let lines = ["step one @a{1}", "title: x", "more text", ">> k: v", "= sec", "> para", ""];
+pub fn fence_family() -> Vec<String> {
+    let mut base = Vec::new();
+    let lines = ["step one @a{1}", "title: x", "author: grandma", ">> k: v", "= sec", "> para", "", "servings: 4"];
     for fence in ["---", "--- ", "---\r", "---\t", " ---", "----", "-- -"] {
         for n in 1..=3usize {
             // choose positions of n fences among 0..=4 line slots
@@ -141,9 +141,29 @@ fn fence_family() -> Vec<String> {
                     s.push('\n');
                     li += 1 + slot;
                 }
-                v.push(s);
+                base.push(s);
             }
         }
+    }
+    // well-formed front matters of 0-4 YAML lines followed by a body, and one whose closing fence ends the input
+    for n in 0..=4usize {
+        let yaml: String = ["title: x\n", "servings: 4\n", "author: grandma\n", "tags: [a, b1]\n"][..n].concat();
+        base.push(format!("---\n{yaml}---\nstep one @a{{1}}\n\n>> k: v\nmore text\n"));
+        base.push(format!("---\n{yaml}---\n"));
+        base.push(format!("---\n{yaml}---\n\n= sec\n\n> para\n"));
+    }
+    // spellings of each document: as is; white-space-only lines before it; CRLF throughout; no final newline
+    let mut v = Vec::new();
+    for s in base {
+        let crlf = s.replace("\r\n", "\n").replace('\n', "\r\n");
+        for prefix in ["\n", "  \n", "\r\n", "\n\t\n\n"] {
+            v.push(format!("{prefix}{s}"));
+        }
+        v.push(format!("\r\n{crlf}"));
+        v.push(s.trim_end_matches('\n').to_string());
+        v.push(crlf.trim_end_matches("\r\n").to_string());
+        v.push(crlf);
+        v.push(s);
     }
     v
 }
